@@ -136,6 +136,32 @@ def _kill_leaves_journal(old, existed, block, kill_at, torn, compress, torn_all=
     return arch == old or arch == full
 
 
+class _NotOSError(ValueError):
+    pass
+
+
+def _other_failure(old, block, fault_at, compress):
+    """The append is interrupted by something that is not an OSError (ValueError 'I/O operation on closed file' from a block file,
+    KeyboardInterrupt ...): no roll-back happens, so the journal must stay - the state is then the crash-safe one."""
+    name = 'x.warc.gz' if compress else 'x.warc'
+    full, nops = _full_append(old, True, block, compress, name)
+    fs = fakefs.FS(fault_at=fault_at)
+    fs.fault_exc = _NotOSError
+    fs.files[name] = old
+    rec = _recorder(fs, compress, name)
+    jn = name + '-wpullinc'
+    try:
+        rec.write_record(_record(block))
+    except _NotOSError:
+        hit('interrupted')
+        now = fs.files.get(name, b'')
+        if now == old:
+            return True                                   # nothing of the record reached the archive (a leftover journal only makes the next run refuse)
+        return jn in fs.files and _journal_ok(fs.files[jn], len(old)) and now[:len(old)] == old
+    hit('no-fault')
+    return fs.files.get(name) == full and jn not in fs.files
+
+
 def _fault_then_kill(old, block, fault_at, kill_after, torn, compress):
     """An append hits an I/O error and the process dies while the error is being handled (during the roll-back): the journal must
     outlive the torn archive."""
@@ -252,6 +278,13 @@ HARNESSES = [
       funcs=['wpull/warc/recorder.py:WARCRecorder.write_record'],
       doc='for every operation at which the process dies (incl. torn writes): the snapshot has a complete journal naming the '
           'pre-append length with the old bytes intact below it, or the archive is old / old + the complete record'),
+    H('other_failure', '_other_failure', 'old: bytes, block: bytes, fault_at: int, compress: bool',
+      pre=['len(old) <= 2 and len(block) <= 1 and 1 <= fault_at <= %d' % _OPS],
+      parts=[{'tag': 'plain', 'fix': {'compress': 'False'}}, {'tag': 'gzip', 'fix': {'compress': 'True'}}],
+      timeout={'quick': 200, 'thorough': 600}, samples=[(b'ab', b'x', 7, False), (b'ab', b'x', 16, True)], need=['interrupted', 'no-fault'],
+      funcs=['wpull/warc/recorder.py:WARCRecorder.write_record'],
+      doc='the append is cut short at operation k by an exception that is not an OSError (no roll-back is attempted for those): either '
+          'nothing of the record is in the archive, or the journal naming the old length is still there with the old bytes intact'),
     H('fault_then_kill', '_fault_then_kill', 'old: bytes, block: bytes, fault_at: int, kill_after: int, torn: int, compress: bool',
       pre={'quick': ['len(old) <= 1 and len(block) <= 1 and 1 <= fault_at <= %d and 1 <= kill_after <= 5 and 0 <= torn <= 1' % _OPS],
            'thorough': ['len(old) <= 3 and len(block) <= 2 and 1 <= fault_at <= %d and 1 <= kill_after <= 6 and 0 <= torn <= 3' % _OPS]},
